@@ -309,7 +309,7 @@ fn check_batch(ctx: &Ctx, root: &Path, batch_name: &str, mods: &[(usize, usize, 
         }
         main.push_str("fn main() {}\n");
         write_if_changed(&batch.join("src/main.rs"), &main);
-        write_if_changed(&batch.join("Cargo.toml"), &format!("[package]\nname = \"{}\"\nedition = \"2024\"\nversion = \"0.0.0\"\n\n[dependencies]\npilota = {{ path = \"/repo/pilota\" }}\n\n[workspace]\n", batch_name));
+        write_if_changed(&batch.join("Cargo.toml"), &format!("[package]\nname = \"{}\"\nedition = \"2024\"\nversion = \"0.0.0\"\n\n[dependencies]\npilota = {{ path = \"/repo/pilota\" }}\n\n[workspace]\n\n[profile.dev]\nincremental = false\n", batch_name));
     } else {
         let _ = std::fs::remove_dir_all(batch.join("src"));
         let mut members = vec![];
@@ -331,7 +331,7 @@ fn check_batch(ctx: &Ctx, root: &Path, batch_name: &str, mods: &[(usize, usize, 
             write_if_changed(&dir.join("Cargo.toml"), &format!("[package]\nname = \"{}_s{}\"\nedition = \"2024\"\nversion = \"0.0.0\"\n\n[dependencies]\npilota = {{ path = \"/repo/pilota\" }}\n", batch_name, k));
             members.push(format!("\"shards/s{}\"", k));
         }
-        write_if_changed(&batch.join("Cargo.toml"), &format!("[workspace]\nresolver = \"3\"\nmembers = [{}]\n", members.join(", ")));
+        write_if_changed(&batch.join("Cargo.toml"), &format!("[workspace]\nresolver = \"3\"\nmembers = [{}]\n\n[profile.dev]\nincremental = false\n", members.join(", ")));
     }
     write_if_changed(&batch.join(".cargo/config.toml"), &format!("[net]\noffline = true\n\n[build]\ntarget-dir = \"{}/target\"\nrustflags = [\"--cfg\", \"pilota_verif\"]\n", root.display()));
     if !batch.join("Cargo.lock").exists() {
